@@ -257,7 +257,14 @@ fn run(c: &Case) {
             if limit.is_some_and(|l| got >= l) {
                 break;
             }
-            match reader.next().await {
+            // the pool only ever sees wakers that yield after waking (see harness::YieldingWaker)
+            let item = std::future::poll_fn(|cx| {
+                let w = crate::harness::yielding_waker(cx.waker());
+                let mut cx2 = std::task::Context::from_waker(&w);
+                reader.poll_next_unpin(&mut cx2)
+            })
+            .await;
+            match item {
                 Some(Ok(batch)) => {
                     got += 1;
                     match batch_id(&batch) {
